@@ -76,6 +76,7 @@ TOPO = {
     "line4": dict(nets=[1, 2, 3, 4], routers=[[1, 2], [2, 3], [3, 4]]),
     "star4": dict(nets=[1, 2, 3, 4], routers=[[1, 2, 3, 4]]),
     "tree5": dict(nets=[1, 2, 3, 4, 5], routers=[[1, 2, 3], [3, 4], [3, 5]]),
+    "line5": dict(nets=[1, 2, 3, 4, 5], routers=[[1, 2], [2, 3], [3, 4], [4, 5]]),
 }
 
 
@@ -134,11 +135,13 @@ def build(topo, knows_net):
              "station symbolic; router caches cold or warmed by the routers' own startup announcements (per instance); stations "
              "that do / do not know their network number, or learn it from the routers' Network-Number-Is (per instance); "
              "history=True: an earlier unicast between station 1 of a symbolic pair of networks leaves the caches partly "
-             "warm, then station 2 of a symbolic network sends a unicast or remote broadcast; payload of 3 symbolic octets",
+             "warm, then station 2 of a symbolic network sends a unicast or remote broadcast; ends=True: only traffic between "
+             "the two ends of the topology; a station that knows its network number addresses its own network either in "
+             "the local form or by that number (symbolic); payload of 3 symbolic octets",
       outside="topologies other than the six instantiated (random trees of up to 8 networks), more than 2 stations per network, "
               "route-aware addressing (settings.route_aware)",
       stubs=STUBS)
-def route_scn(d, topo, warm, knows_net, announce=False, history=False):
+def route_scn(d, topo, warm, knows_net, announce=False, history=False, ends=False):
     T = TOPO[topo]
     w = World()
     lans, stations, routers = build(T, knows_net)
@@ -170,23 +173,31 @@ def route_scn(d, topo, warm, knows_net, announce=False, history=False):
     if history:
         src = d.pick([k for k in keys if k[1] == 2], 'source')
         kind = d.pick(["unicast", "remote-broadcast"], 'kind')
+    elif ends:
+        # only the two ends of the topology: the longest paths, every router on the way starts cold
+        src = d.pick([k for k in keys if k[0] in (T["nets"][0], T["nets"][-1])], 'source')
+        kind = d.pick(["unicast", "remote-broadcast"], 'kind')
     else:
         src = d.pick(keys, 'source')
         kind = d.pick(["unicast", "local-broadcast", "remote-broadcast", "global-broadcast"], 'kind')
     sn, sk = src
+    far = T["nets"][-1] if sn == T["nets"][0] else T["nets"][0]
     payload = d.bytes(3, 3, 'payload')
+    # a station that knows its network number may address its own network by that number
+    by_number = bool(knows_net and not history and not ends and d.bool('own_network_by_number'))
     if kind == "unicast":
-        dst = d.pick([k for k in keys if k != src and (not history or (k[1] == 1 and k[0] != sn))], 'destination')
+        dst = d.pick([k for k in keys if k != src and (not history or (k[1] == 1 and k[0] != sn))
+                      and (not ends or k[0] == far)], 'destination')
         dn, dk = dst
-        dest = LocalStation(dk) if dn == sn else RemoteStation(dn, dk)
+        dest = (RemoteStation(dn, dk) if by_number else LocalStation(dk)) if dn == sn else RemoteStation(dn, dk)
         expect = {dst}
         path = on_path(T, sn, dn)
     elif kind == "local-broadcast":
-        dest = LocalBroadcast()
+        dest = RemoteBroadcast(sn) if by_number else LocalBroadcast()
         expect = {k for k in keys if k[0] == sn and k != src}
         path = [sn]
     elif kind == "remote-broadcast":
-        dn = d.pick([n for n in T["nets"] if n != sn], 'dnet')
+        dn = far if ends else d.pick([n for n in T["nets"] if n != sn], 'dnet')
         dest = RemoteBroadcast(dn)
         expect = {k for k in keys if k[0] == dn}
         path = on_path(T, sn, dn)
@@ -496,6 +507,10 @@ def instances(tier):
                 out.append(Inst(route_scn, dict(topo=t, warm=warm, knows_net=knows), budget=80 if q else 900,
                                 path_timeout=90, label="%s,%s,%s" % (t, "warm" if warm else "cold",
                                                                      "knows-net" if knows else "net-unknown")))
+    # three routers between the ends, everything cold: the discovery has to travel the whole way and back
+    for t in (["line4"] if q else ["line4", "line5"]):
+        out.append(Inst(route_scn, dict(topo=t, warm=False, knows_net=True, ends=True), budget=150 if q else 900,
+                        path_timeout=90, label="%s,cold,ends-only" % t))
     for t in (["line3"] if q else ["line3", "star3", "line4", "tree5"]):
         out.append(Inst(route_scn, dict(topo=t, warm=False, knows_net=True, history=True), budget=120 if q else 900,
                         path_timeout=90, label="%s,partly-warm" % t))
